@@ -115,7 +115,7 @@ pub fn job_c07(out_dir: &str, tier: &str, seed: u64) {
     let quick = tier == "quick";
     let mut rng = Rng::new(seed ^ 0xC07);
     let mut sh = Shards::new(out_dir, "c07", 400_000);
-    let ncases = if quick { 3000 } else { 100000 };
+    let ncases = if quick { 9000 } else { 100000 };
     let mut n = 0usize;
     for _ in 0..ncases {
         let (mut items, html, ranges) = scope::gen_doc(&mut rng, 10);
